@@ -21,11 +21,13 @@ import (
 	"errors"
 	"fmt"
 	"os"
+	"runtime"
 	"strings"
 	"testing"
 	"time"
 
 	"github.com/WuKongIM/WuKongIM/pkg/gateway/session"
+	goruntimeregistry "github.com/WuKongIM/WuKongIM/pkg/goroutine"
 	gatewaytypes "github.com/WuKongIM/WuKongIM/pkg/gateway/types"
 	"github.com/WuKongIM/WuKongIM/pkg/protocol/frame"
 	"github.com/WuKongIM/WuKongIM/pkg/zzverif/ev"
@@ -345,6 +347,9 @@ func c28Body(x *vsched.Exec, cfg c28Cfg) {
 				AsyncSendBatchMaxRecords: cfg.maxRecs,
 			},
 			Runtime: gatewaytypes.RuntimeOptions{
+				// a registry per execution: the process-wide fallback registry would keep every
+				// execution's mailbox alive through its pool registration
+				Goroutines:              goruntimeregistry.New(),
 				AsyncSendWorkers:        cfg.workers,
 				AsyncSendQueueCapacity:  cfg.capacity,
 				AsyncPoolReleaseTimeout: time.Second,
@@ -705,6 +710,11 @@ func TestVerifC28Pipeline(t *testing.T) {
 	}
 	if r.Replay() != nil {
 		return
+	}
+	if os.Getenv("VERIF_C28_GOROUTINES") != "" {
+		var ms runtime.MemStats
+		runtime.ReadMemStats(&ms)
+		fmt.Println("goroutines at end:", runtime.NumGoroutine(), "heap MB", ms.HeapAlloc>>20, "stack MB", ms.StackInuse>>20, "mallocs", ms.Mallocs, "totalalloc MB", ms.TotalAlloc>>20)
 	}
 	for _, k := range vsched.SortedKeys(c28Stats) {
 		r.Count(k, c28Stats[k])
